@@ -83,6 +83,31 @@ class Recorder:
         cls.data_received, cls._send_lines = self.saved
 
 
+class FakeConnection:
+    name = "harness"
+    host = "harness"
+
+    def __getattr__(self, k):
+        return lambda *a, **kw: None
+
+
+class FakeTransport:
+    def __init__(self):
+        self.closed = False
+
+    def close(self):
+        self.closed = True
+
+    def abort(self):
+        self.closed = True
+
+    def write_eof(self):
+        pass
+
+    def is_closing(self):
+        return self.closed
+
+
 def new_protocol(env, a2c_key, c2a_key, a2c0=0, c2a0=0):
     M = env.M
     p = object.__new__(M.SecureHomeKitProtocol)
@@ -91,6 +116,9 @@ def new_protocol(env, a2c_key, c2a_key, a2c0=0, c2a0=0):
     p.a2c_key, p.c2a_key = a2c_key, c2a_key
     p.encryptor = env.encryptor(c2a_key)
     p.decryptor = env.decryptor(a2c_key)
+    p.result_cbs = []
+    p.connection = FakeConnection()
+    p.transport = FakeTransport()
     return p
 
 
@@ -142,6 +170,9 @@ def inbound(M, F, R, corrupt=None):
                 except RuntimeError:
                     err = "RuntimeError"
                     break  # asyncio closes the transport: no further reads are delivered
+                if p.transport.closed:
+                    err = "closed"
+                    break
         delivered = rec.delivered
         good = F if not corrupt else j  # frames that must be delivered
         if not corrupt:
@@ -153,10 +184,10 @@ def inbound(M, F, R, corrupt=None):
             ex.tag("corrupt-" + corrupt)
             ex.require(len(delivered) == good, "inbound: exactly the frames before the bad one are delivered")
             if corrupt == "body":
-                ex.require(err == "RuntimeError", "inbound: a frame failing authentication ends the session")
+                ex.require(err is not None, "inbound: a frame failing authentication ends the session")
             else:
                 # a wrong length prefix either fails authentication or leaves the receiver waiting for bytes
-                ex.require(err == "RuntimeError" or decide(slen(p._incoming_buffer) > 0),
+                ex.require(err is not None or decide(slen(p._incoming_buffer) > 0),
                            "inbound: wrong length prefix is never delivered")
         for d, (pt, L) in zip(delivered, frames):
             ex.require(rope_eq(d, pt), "inbound: delivered plaintext equals what the accessory sent, in order")
